@@ -32,6 +32,12 @@ func checkC18(c *Ctx) {
 		c.Undecided("C18-R1", "package tcell", "-", "not loaded")
 		return
 	}
+	c.Rule("C18-R9", "what the simulation keeps as a cell's bytes is its own storage, never a reslice of the per-call encoder destination")
+	c.Expect("C18-R9", 1)
+	checkNoAliasedEncodeBuffer(c, p, "C18-R9")
+	c.Rule("C18-R10", "InjectKey delivers the key event it was asked for: built from the key, rune and modifiers given, unchanged")
+	c.Expect("C18-R10", 1)
+	checkInjectKeyVerbatim(c, p, "C18-R10")
 	c.Rule("C18-R8", "the simulation's ShowCursor remembers the requested position as given")
 	c.Expect("C18-R8", 1)
 	checkShowCursorStoresRequest(c, p, "C18-R8", "simscreen")
